@@ -324,4 +324,25 @@ example :
     r.recv = [.full, .full, .full] ∧ r.pauses = [250, 500] ∧ r.outcome = .resp (.status 200 none) := by
   decide
 
+/-- **`Retry-After` on a 429 is honoured**: every positive number of seconds, 1 included,
+    decides the pause; every other status, and a header that is absent, not a number, zero or
+    negative, leaves the exponential value. -/
+theorem c17_retry_after_honoured (ra : Int) (expo : Int) (h : ra > 0) :
+    retryAfterPause 429 (some ra) expo = ra * 1000000000 := by
+  unfold retryAfterPause
+  simp [h]
+
+theorem c17_retry_after_otherwise (status : Nat) (ra : Option Int) (expo : Int)
+    (h : status ≠ 429 ∨ ra = none ∨ ∃ v, ra = some v ∧ v ≤ 0) : retryAfterPause status ra expo = expo := by
+  unfold retryAfterPause
+  rcases h with h | h | ⟨v, hv, hle⟩
+  · simp [h]
+  · subst h; split <;> rfl
+  · subst hv
+    have : ¬ v > 0 := by omega
+    split <;> simp [this]
+
+/-- The seeded change C17/m10 (`> 1` instead of `> 0`) ignores `Retry-After: 1`. -/
+example : retryAfterPause 429 (some 1) 250000000 = 1000000000 := by decide
+
 end Oras.Props.C17
